@@ -9,6 +9,7 @@ import NiftyVerif.Lemmas.LineSearch
 import NiftyVerif.Lemmas.LineSearchInterp
 import NiftyVerif.Lemmas.Lbfgs
 import NiftyVerif.Lemmas.LbfgsRun
+import NiftyVerif.Lemmas.LbfgsRVec
 
 namespace NiftyVerif.C16
 open NiftyVerif
@@ -224,6 +225,15 @@ theorem vl_run_eq_lbfgs_run {ip : V → V → K} (hip : IsIP ip) (gg : V → K) 
     (hgg : ∀ p ∈ pts, gg p.g ≠ 0) (stL : LState V) (h0 : stL.k = 0) (hs : stL.s = s0) (hy : stL.y = y0) :
     runVL ip gg mmax alV s0 y0 e0 pts none = runL ip mmax alL s0 y0 pts stL :=
   runVL_eq_runL hip gg mmax hmm alL alV s0 y0 e0 pts hgg stL none ⟨h0, hs, hy⟩
+
+/-- **the driver instance**: exactly the two expressions `Driver/C16.lean` evaluates for an `lbfgs` request (exact
+    rational vectors `RVec n`, `RVec.dot`, zero-initialised buffers/stores/scratch, `‖g‖²` in the corner) are equal for
+    every dimension, every `max_history_length ≥ 1` and every list of points with non-zero gradients -/
+theorem vl_run_eq_lbfgs_run_driver (n m : Nat) (hm : 0 < m) (pts : List (Point (RVec n)))
+    (hg : ∀ p ∈ pts, RVec.dot p.g p.g ≠ 0) :
+    runVL (K := ℚ) RVec.dot (fun g => RVec.dot g g) m (fun _ => 0) (fun _ => 0) (fun _ => 0) (fun _ _ => 0) pts none =
+      runL (K := ℚ) RVec.dot m (fun _ => 0) (fun _ => 0) (fun _ => 0) pts ⟨0, fun _ => 0, fun _ => 0, 0, 0⟩ :=
+  vl_run_eq_lbfgs_run (isIP_dot n) (fun g => RVec.dot g g) m hm _ _ _ _ _ pts hg _ rfl rfl rfl
 
 /-- non-vacuity: `V = K = ℚ` with `ip = (· * ·)` is a lawful inner product -/
 example : IsIP (K := Rat) (V := Rat) (fun a b => a * b) :=
